@@ -1404,6 +1404,105 @@ impl<'a> Gen<'a> {
         }
     }
 
+    /// Stream `dest-sweep` (both build profiles): EVERY destination length, one by one, for every accumulate-into entry
+    /// point on small shapes - `multiply_into` on balanced shapes and on shapes that take the block loop (both operand
+    /// orders, lengths 0 ..= |a|+|b|+1: every residue modulo the block length, before / at / after every block
+    /// boundary, shorter than the longer operand), `fft_inv_into` after forward-pointwise (`fmi`) and on its own (`ii`),
+    /// `fft_into` (`fi`) and a spectral product (`fx`) for transform sizes 1..16 (lengths 0 ..= n+2, 2n, 2n+1), with every
+    /// history kind and constructor kind in turn.  A length-dependent check or branch in one of these functions (also
+    /// one that exists only under `debug_assert!` / `cfg(debug_assertions)`) cannot fall between the sampled lengths.
+    fn dest_sweep(&mut self, thorough: bool) {
+        let shapes: [(usize, usize); 18] = [
+            (1, 1), (1, 2), (2, 2), (2, 3), (3, 3), (3, 5), (4, 8), (5, 7),
+            (1, 3), (1, 5), (2, 5), (2, 9), (3, 7), (3, 10), (4, 9), (4, 13), (5, 16), (6, 31),
+        ];
+        let mut idx = 0usize;
+        for prec in ["f64", "f32"] {
+            let put = |g: &mut Self, idx: usize, n: usize, kind: &str, last: String| {
+                let hist = HIST[(idx / 3) % HIST.len()];
+                let mut ops = g.history(prec, hist, n);
+                ops.push(last);
+                let ctor = CTORS[idx % CTORS.len()];
+                g.stats.bump("stream:dest-sweep");
+                g.stats.bump(&format!("dest-sweep:{}", kind));
+                g.stats.bump(&format!("prec:{}", prec));
+                g.stats.bump(&format!("ctor:{}", ctor));
+                (g.emit)(format!("fft {} {} ; {}", prec, ctor, ops.join(" ; ")));
+            };
+            for &(la0, lb0) in &shapes {
+                for order in 0..2 {
+                    if order == 1 && la0 == lb0 {
+                        continue;
+                    }
+                    let (la, lb) = if order == 0 { (la0, lb0) } else { (lb0, la0) };
+                    let l = la + lb - 1;
+                    let mut n = 2;
+                    while n < l {
+                        n *= 2;
+                    }
+                    let m = env_max(prec, la, lb);
+                    for rl in 0..=(l + 2) {
+                        // quick tier: the longest shape on every other length in f32
+                        if !thorough && prec == "f32" && lb0 > 16 && rl % 2 == order {
+                            continue;
+                        }
+                        idx += 1;
+                        let a = coeffs(&mut self.rng, la, m, PATTERNS[idx % PATTERNS.len()]);
+                        let b = coeffs(&mut self.rng, lb, m, "mixed");
+                        let d = self.dest(rl);
+                        let unbalanced = lb0 > 2 * la0;
+                        let kind = if !unbalanced {
+                            "mi:single-transform"
+                        } else if rl >= lb0 {
+                            "mi:blocks:dest>=long"
+                        } else if rl % la0 == 0 {
+                            "mi:blocks:dest<long,at-boundary"
+                        } else {
+                            "mi:blocks:dest<long,inside-block"
+                        };
+                        put(self, idx, n, kind, format!("mi {} {} {}", join(&a), join(&b), join(&d)));
+                    }
+                }
+            }
+            for n in [1usize, 2, 4, 8, 16] {
+                let mut dls: Vec<usize> = (0..=(n + 2)).collect();
+                dls.extend_from_slice(&[2 * n, 2 * n + 1]);
+                dls.sort();
+                dls.dedup();
+                for &rl in &dls {
+                    // forward, pointwise product, fft_inv_into (cyclic when the product is longer than n)
+                    let la = 1 + self.rng.below(n as u64) as usize;
+                    let lb = 1 + self.rng.below(n as u64) as usize;
+                    let m = env_max(prec, la, lb);
+                    let a = coeffs(&mut self.rng, la, m, "mixed");
+                    let b = coeffs(&mut self.rng, lb, m, "allmax");
+                    idx += 1;
+                    let d = self.dest(rl);
+                    put(self, idx, n, "fmi", format!("fmi {} {} {} {}", join(&a), join(&b), n, join(&d)));
+                    // a spectral product through the operators of Complex<F>
+                    idx += 1;
+                    let d = self.dest(rl);
+                    let form = ["0,1,*", "0,1,*=", "c0,1,*"][idx % 3];
+                    put(self, idx, n, "fx", format!("fx {} {} {} {} {}", form, n, join(&d), join(&a), join(&b)));
+                    // fft_inv_into of arbitrary complex input
+                    let xs = coeffs(&mut self.rng, n, 1000, "mixed");
+                    let ys = coeffs(&mut self.rng, n, 1000, "mixed");
+                    idx += 1;
+                    let d = self.dest_small(rl);
+                    put(self, idx, n, "ii", format!("ii {} {} {}", join(&xs), join(&ys), join(&d)));
+                    // fft_into, explicit size and auto-size
+                    let lv = 1 + self.rng.below(n as u64) as usize;
+                    let v = coeffs(&mut self.rng, lv, 1000, "mixed");
+                    let rx: Vec<i32> = self.dest_small(rl).iter().map(|&x| x as i32).collect();
+                    let ry: Vec<i32> = self.dest_small(rl).iter().map(|&x| x as i32).collect();
+                    idx += 1;
+                    let auto = idx % 4 == 0 && fft_size(lv, 0) == n;
+                    put(self, idx, n, "fi", format!("fi {} {} {} {}", join(&v), if auto { 0 } else { n }, join(&rx), join(&ry)));
+                }
+            }
+        }
+    }
+
     /// operand vectors of a spectral case: operands of the given lengths, magnitude `m`
     fn fx_operands(&mut self, lens: &[usize], m: i64, monomial_last: bool, n: usize) -> Vec<Vec<i32>> {
         let mut vs = vec![];
@@ -1427,7 +1526,7 @@ impl<'a> Gen<'a> {
     /// `default()`: products (`*`, `*=`), sums and differences of products, negation, scaling and division by a scalar,
     /// conjugation (= index reversal), `abs2` / `abs` (= autocorrelation), division by the spectrum of a unit monomial
     /// (= cyclic shift), `ONE`, `I`.  Expected: the same expression evaluated exactly in Z[i][x]/(x^n - 1).
-    fn spectral(&mut self, thorough: bool) {
+    fn spectral(&mut self, thorough: bool, lite: bool) {
         // (rpn, number of operands, last operand is a unit monomial)
         let templates: [(&str, usize, bool); 46] = [
             ("0,1,*", 2, false), ("0,1,*=", 2, false), ("c0,c1,*", 2, false), ("c0,1,*=", 2, false), ("1,0,*=", 2, false),
@@ -1449,6 +1548,10 @@ impl<'a> Gen<'a> {
                     idx += 1;
                     // larger sizes only for every third template (the exact oracles are quadratic in n)
                     if k >= 6 && (ti + k as usize) % 3 != 0 && !thorough {
+                        continue;
+                    }
+                    // debug profile: size 256 for one template in nine
+                    if lite && k >= 6 && (ti + k as usize) % 9 != 0 {
                         continue;
                     }
                     let n = 1usize << k;
@@ -1511,9 +1614,20 @@ const HIST: [&str; 5] = ["fresh", "larger", "smaller", "same", "interleaved"];
 const OPS: [&str; 5] = ["m", "mi", "fm", "fmx", "fmi"];
 
 fn gen(args: &Args, emit: &mut dyn FnMut(String), stats: &mut Stats) {
-    let thorough = args.tier == "thorough";
+    // `--profile debug` (checks/C04.py: harness_args): the SAME generator families on a reduced stream - the unoptimised
+    // build with debug assertions is ~10 times slower and the Lean model answers the stream a second time.  Reduced are
+    // only the SIZES (few cases above 2^9, one per size above 2^10) and the number of random cases; every entry point,
+    // every history kind, every constructor kind and every destination-length class of the `*_into` functions stays
+    // (stream `dest-sweep` and ALL block-relative destinations of the small unbalanced shapes are in both profiles).
+    // Thorough tier: the debug profile runs the whole quick-tier stream of the release profile.
+    let dbg = args.extra.get("profile").map_or(false, |p| p == "debug");
+    let thorough = args.tier == "thorough" && !dbg;
+    let lite = dbg && args.tier != "thorough";
+    if dbg {
+        stats.bump(if lite { "debug_profile_reduced_stream" } else { "debug_profile_quick_stream" });
+    }
     let kmax: u32 = if thorough { 17 } else { 12 };
-    let mut g = Gen { rng: SplitMix64::new(args.seed ^ 0xC04), emit, stats, cap_hist: 1usize << (kmax + 1), dest_override: None };
+    let mut g = Gen { rng: SplitMix64::new(args.seed ^ 0xC04), emit, stats, cap_hist: if lite { 1 << 9 } else { 1usize << (kmax + 1) }, dest_override: None };
     let mut ctr = 0usize;
     let dense_cap: u64 = if thorough { 1 << 21 } else { 1 << 19 };
 
@@ -1580,18 +1694,22 @@ fn gen(args: &Args, emit: &mut dyn FnMut(String), stats: &mut Stats) {
             if k >= 14 && idx % 4 != (k as usize) % 4 {
                 continue;
             }
+            // debug profile: at 2^6 every other pair, at 2^7 one in four, at 2^8 and 2^9 one in eight, above one pair per size
+            if lite && (k >= 10 && idx != 2 * k as usize || k == 9 && idx % 8 != 1 || k == 8 && idx % 8 != 4 || k == 7 && idx % 4 != 2 || k == 6 && idx % 2 != 0) {
+                continue;
+            }
             let opk = OPS[ctr % 5];
             let hist = HIST[(ctr / 3) % HIST.len()];
             g.mul_case("f64", la, lb, pa, pb, opk, hist, "pow2-boundary");
-            if k <= 10 || ctr % 4 == 0 {
+            if (k <= 10 || ctr % 4 == 0) && !(lite && k >= 10) {
                 g.mul_case("f32", la, lb, pa, pb, opk, hist, "pow2-boundary");
             }
         }
     }
 
     // (iii) random structured
-    let nrand = if thorough { 6000 } else { 250 };
-    let lmax_log = if thorough { 13 } else { 10 };
+    let nrand = if lite { 80 } else if thorough { 6000 } else { 250 };
+    let lmax_log = if lite { 8 } else if thorough { 13 } else { 10 };
     for _ in 0..nrand {
         let prec = if g.rng.chance(2, 3) { "f64" } else { "f32" };
         let ea = g.rng.below(lmax_log + 1);
@@ -1713,7 +1831,8 @@ fn gen(args: &Args, emit: &mut dyn FnMut(String), stats: &mut Stats) {
 
     // (iv-d) degenerate sizes for every entry point; the operators of Complex<F> on spectra
     g.degenerate(thorough);
-    g.spectral(thorough);
+    g.dest_sweep(thorough);
+    g.spectral(thorough, lite);
 
     // (v) out-of-domain (spec `any`): asserts of update_n / non-power-of-two sizes, coefficients far outside the envelope
     for n in [3usize, 5, 6, 12, 100] {
@@ -1744,10 +1863,10 @@ fn gen(args: &Args, emit: &mut dyn FnMut(String), stats: &mut Stats) {
     // (vi) history independence far outside the envelope and, for f32, above length 1000 (where no non-zero
     //      coefficient fits the f32 envelope): the value is not constrained (`S fresh=same`), the object's tables,
     //      strides and twiddles at these sizes are
-    let nbig = if thorough { 90 } else { 36 };
+    let nbig = if lite { 10 } else if thorough { 90 } else { 36 };
     for i in 0..nbig {
         let prec = if i % 3 == 0 { "f64" } else { "f32" };
-        let kk = if thorough { 10 + (i as u32 % 8) } else { 9 + (i as u32 % 4) };
+        let kk = if lite { 7 + (i as u32 % 3) } else if thorough { 10 + (i as u32 % 8) } else { 9 + (i as u32 % 4) };
         let p = 1usize << kk;
         let la = [p - 1, p, p + 1, p / 2 + 1][i % 4];
         let lb = match (i / 4) % 3 {
@@ -1789,7 +1908,17 @@ fn gen(args: &Args, emit: &mut dyn FnMut(String), stats: &mut Stats) {
         for prec in ["f64", "f32"] {
             for &(la0, lb0) in &shapes {
                 let ds = block_dests(la0, lb0);
-                let nvar = if thorough { ds.len() + 2 } else { 5 };
+                let big = la0.max(lb0) > 2100;
+                // every destination class of block_dests for the shapes up to 700 terms (all tiers, both profiles); for
+                // the longer ones in the quick tier a rotating choice of three
+                let all_dests = thorough || la0.max(lb0) <= if lite { 110 } else { 700 };
+                // debug profile: three of the big shapes, in f64 only, one `multiply` and one `multiply_into` each (a 4096 /
+                // 8192-term operand costs the unoptimised build and the model the most); the shapes between 110 and 2100
+                // terms with one `multiply` and two destinations
+                if lite && big && (prec == "f32" || ![(64, 4096), (1, 4096), (16, 8192)].contains(&(la0, lb0))) {
+                    continue;
+                }
+                let nvar = if lite && big { 2 } else if lite && !all_dests { 3 } else if all_dests { ds.len() + 2 } else { 5 };
                 for v in 0..nvar {
                     idx += 1;
                     // both operand orders
@@ -1798,10 +1927,10 @@ fn gen(args: &Args, emit: &mut dyn FnMut(String), stats: &mut Stats) {
                     let ps = if la0 == 1 || idx % 3 == 0 { "allmax" } else { PATTERNS[idx % PATTERNS.len()] };
                     let (pa, pb) = if la <= lb { (ps, pl) } else { (pl, ps) };
                     let hist = HIST[idx % HIST.len()];
-                    if v < 2 {
+                    if v < 2 && !(lite && !all_dests && v == 1) {
                         g.mul_case(prec, la, lb, pa, pb, "m", hist, "unbalanced");
                     } else {
-                        let d = if thorough { ds[v - 2] } else { ds[(idx * 7 + v) % ds.len()] };
+                        let d = if all_dests && v >= 2 { ds[v - 2] } else { ds[(idx * 7 + v) % ds.len()] };
                         g.dest_override = Some(d);
                         g.mul_case(prec, la, lb, pa, pb, "mi", hist, "unbalanced");
                         g.dest_override = None;
